@@ -8,6 +8,22 @@
 
 #include <stdint.h>
 
+/* Verification hooks (compiled in only with -DABT_VERIF_HOOKS; see /verif). */
+#ifdef ABT_VERIF_HOOKS
+#include <stdint.h>
+void abt_verif_atomic(int kind, int width, const volatile void *addr,
+                      uint64_t a, uint64_t b);
+void abt_verif_event(int kind, const void *p1, const void *p2, long v);
+#define ABTI_VERIF_ATOMIC(kind, width, addr, a, b)                             \
+    abt_verif_atomic(kind, width, (const volatile void *)(addr),               \
+                     (uint64_t)(uintptr_t)(a), (uint64_t)(uintptr_t)(b))
+#define ABTI_VERIF_EVENT(kind, p1, p2, v)                                      \
+    abt_verif_event(kind, (const void *)(p1), (const void *)(p2), (long)(v))
+#else
+#define ABTI_VERIF_ATOMIC(kind, width, addr, a, b)
+#define ABTI_VERIF_EVENT(kind, p1, p2, v)
+#endif
+
 typedef struct ABTD_atomic_bool {
     uint8_t val;
 } ABTD_atomic_bool;
@@ -253,18 +269,21 @@ static inline int ABTDI_atomic_bool_cas_ptr(ABTD_atomic_ptr *ptr, void *oldv,
 static inline int ABTD_atomic_val_cas_weak_int(ABTD_atomic_int *ptr, int oldv,
                                                int newv)
 {
+    ABTI_VERIF_ATOMIC(5, 4, ptr, oldv, newv);
     return ABTDI_atomic_val_cas_int(ptr, oldv, newv, 1);
 }
 
 static inline size_t ABTD_atomic_val_cas_weak_size(ABTD_atomic_size *ptr,
                                                    size_t oldv, size_t newv)
 {
+    ABTI_VERIF_ATOMIC(5, 8, ptr, oldv, newv);
     return ABTDI_atomic_val_cas_size(ptr, oldv, newv, 1);
 }
 
 static inline int32_t ABTD_atomic_val_cas_weak_int32(ABTD_atomic_int32 *ptr,
                                                      int32_t oldv, int32_t newv)
 {
+    ABTI_VERIF_ATOMIC(5, 4, ptr, oldv, newv);
     return ABTDI_atomic_val_cas_int32(ptr, oldv, newv, 1);
 }
 
@@ -272,12 +291,14 @@ static inline uint32_t ABTD_atomic_val_cas_weak_uint32(ABTD_atomic_uint32 *ptr,
                                                        uint32_t oldv,
                                                        uint32_t newv)
 {
+    ABTI_VERIF_ATOMIC(5, 4, ptr, oldv, newv);
     return ABTDI_atomic_val_cas_uint32(ptr, oldv, newv, 1);
 }
 
 static inline int64_t ABTD_atomic_val_cas_weak_int64(ABTD_atomic_int64 *ptr,
                                                      int64_t oldv, int64_t newv)
 {
+    ABTI_VERIF_ATOMIC(5, 8, ptr, oldv, newv);
     return ABTDI_atomic_val_cas_int64(ptr, oldv, newv, 1);
 }
 
@@ -285,24 +306,28 @@ static inline uint64_t ABTD_atomic_val_cas_weak_uint64(ABTD_atomic_uint64 *ptr,
                                                        uint64_t oldv,
                                                        uint64_t newv)
 {
+    ABTI_VERIF_ATOMIC(5, 8, ptr, oldv, newv);
     return ABTDI_atomic_val_cas_uint64(ptr, oldv, newv, 1);
 }
 
 static inline void *ABTD_atomic_val_cas_weak_ptr(ABTD_atomic_ptr *ptr,
                                                  void *oldv, void *newv)
 {
+    ABTI_VERIF_ATOMIC(5, 8, ptr, oldv, newv);
     return ABTDI_atomic_val_cas_ptr(ptr, oldv, newv, 1);
 }
 
 static inline int ABTD_atomic_val_cas_strong_int(ABTD_atomic_int *ptr, int oldv,
                                                  int newv)
 {
+    ABTI_VERIF_ATOMIC(5, 4, ptr, oldv, newv);
     return ABTDI_atomic_val_cas_int(ptr, oldv, newv, 0);
 }
 
 static inline size_t ABTD_atomic_val_cas_strong_size(ABTD_atomic_size *ptr,
                                                      size_t oldv, size_t newv)
 {
+    ABTI_VERIF_ATOMIC(5, 8, ptr, oldv, newv);
     return ABTDI_atomic_val_cas_size(ptr, oldv, newv, 0);
 }
 
@@ -310,6 +335,7 @@ static inline int32_t ABTD_atomic_val_cas_strong_int32(ABTD_atomic_int32 *ptr,
                                                        int32_t oldv,
                                                        int32_t newv)
 {
+    ABTI_VERIF_ATOMIC(5, 4, ptr, oldv, newv);
     return ABTDI_atomic_val_cas_int32(ptr, oldv, newv, 0);
 }
 
@@ -317,6 +343,7 @@ static inline uint32_t
 ABTD_atomic_val_cas_strong_uint32(ABTD_atomic_uint32 *ptr, uint32_t oldv,
                                   uint32_t newv)
 {
+    ABTI_VERIF_ATOMIC(5, 4, ptr, oldv, newv);
     return ABTDI_atomic_val_cas_uint32(ptr, oldv, newv, 0);
 }
 
@@ -324,6 +351,7 @@ static inline int64_t ABTD_atomic_val_cas_strong_int64(ABTD_atomic_int64 *ptr,
                                                        int64_t oldv,
                                                        int64_t newv)
 {
+    ABTI_VERIF_ATOMIC(5, 8, ptr, oldv, newv);
     return ABTDI_atomic_val_cas_int64(ptr, oldv, newv, 0);
 }
 
@@ -331,72 +359,84 @@ static inline uint64_t
 ABTD_atomic_val_cas_strong_uint64(ABTD_atomic_uint64 *ptr, uint64_t oldv,
                                   uint64_t newv)
 {
+    ABTI_VERIF_ATOMIC(5, 8, ptr, oldv, newv);
     return ABTDI_atomic_val_cas_uint64(ptr, oldv, newv, 0);
 }
 
 static inline void *ABTD_atomic_val_cas_strong_ptr(ABTD_atomic_ptr *ptr,
                                                    void *oldv, void *newv)
 {
+    ABTI_VERIF_ATOMIC(5, 8, ptr, oldv, newv);
     return ABTDI_atomic_val_cas_ptr(ptr, oldv, newv, 0);
 }
 
 static inline int ABTD_atomic_bool_cas_weak_int(ABTD_atomic_int *ptr, int oldv,
                                                 int newv)
 {
+    ABTI_VERIF_ATOMIC(5, 4, ptr, oldv, newv);
     return ABTDI_atomic_bool_cas_int(ptr, oldv, newv, 1);
 }
 
 static inline int ABTD_atomic_bool_cas_weak_size(ABTD_atomic_size *ptr,
                                                  size_t oldv, size_t newv)
 {
+    ABTI_VERIF_ATOMIC(5, 8, ptr, oldv, newv);
     return ABTDI_atomic_bool_cas_size(ptr, oldv, newv, 1);
 }
 
 static inline int ABTD_atomic_bool_cas_weak_int32(ABTD_atomic_int32 *ptr,
                                                   int32_t oldv, int32_t newv)
 {
+    ABTI_VERIF_ATOMIC(5, 4, ptr, oldv, newv);
     return ABTDI_atomic_bool_cas_int32(ptr, oldv, newv, 1);
 }
 
 static inline int ABTD_atomic_bool_cas_weak_uint32(ABTD_atomic_uint32 *ptr,
                                                    uint32_t oldv, uint32_t newv)
 {
+    ABTI_VERIF_ATOMIC(5, 4, ptr, oldv, newv);
     return ABTDI_atomic_bool_cas_uint32(ptr, oldv, newv, 1);
 }
 
 static inline int ABTD_atomic_bool_cas_weak_int64(ABTD_atomic_int64 *ptr,
                                                   int64_t oldv, int64_t newv)
 {
+    ABTI_VERIF_ATOMIC(5, 8, ptr, oldv, newv);
     return ABTDI_atomic_bool_cas_int64(ptr, oldv, newv, 1);
 }
 
 static inline int ABTD_atomic_bool_cas_weak_uint64(ABTD_atomic_uint64 *ptr,
                                                    uint64_t oldv, uint64_t newv)
 {
+    ABTI_VERIF_ATOMIC(5, 8, ptr, oldv, newv);
     return ABTDI_atomic_bool_cas_uint64(ptr, oldv, newv, 1);
 }
 
 static inline int ABTD_atomic_bool_cas_weak_ptr(ABTD_atomic_ptr *ptr,
                                                 void *oldv, void *newv)
 {
+    ABTI_VERIF_ATOMIC(5, 8, ptr, oldv, newv);
     return ABTDI_atomic_bool_cas_ptr(ptr, oldv, newv, 1);
 }
 
 static inline int ABTD_atomic_bool_cas_strong_int(ABTD_atomic_int *ptr,
                                                   int oldv, int newv)
 {
+    ABTI_VERIF_ATOMIC(5, 4, ptr, oldv, newv);
     return ABTDI_atomic_bool_cas_int(ptr, oldv, newv, 0);
 }
 
 static inline int ABTD_atomic_bool_cas_strong_size(ABTD_atomic_size *ptr,
                                                    size_t oldv, size_t newv)
 {
+    ABTI_VERIF_ATOMIC(5, 8, ptr, oldv, newv);
     return ABTDI_atomic_bool_cas_size(ptr, oldv, newv, 0);
 }
 
 static inline int ABTD_atomic_bool_cas_strong_int32(ABTD_atomic_int32 *ptr,
                                                     int32_t oldv, int32_t newv)
 {
+    ABTI_VERIF_ATOMIC(5, 4, ptr, oldv, newv);
     return ABTDI_atomic_bool_cas_int32(ptr, oldv, newv, 0);
 }
 
@@ -404,12 +444,14 @@ static inline int ABTD_atomic_bool_cas_strong_uint32(ABTD_atomic_uint32 *ptr,
                                                      uint32_t oldv,
                                                      uint32_t newv)
 {
+    ABTI_VERIF_ATOMIC(5, 4, ptr, oldv, newv);
     return ABTDI_atomic_bool_cas_uint32(ptr, oldv, newv, 0);
 }
 
 static inline int ABTD_atomic_bool_cas_strong_int64(ABTD_atomic_int64 *ptr,
                                                     int64_t oldv, int64_t newv)
 {
+    ABTI_VERIF_ATOMIC(5, 8, ptr, oldv, newv);
     return ABTDI_atomic_bool_cas_int64(ptr, oldv, newv, 0);
 }
 
@@ -417,17 +459,20 @@ static inline int ABTD_atomic_bool_cas_strong_uint64(ABTD_atomic_uint64 *ptr,
                                                      uint64_t oldv,
                                                      uint64_t newv)
 {
+    ABTI_VERIF_ATOMIC(5, 8, ptr, oldv, newv);
     return ABTDI_atomic_bool_cas_uint64(ptr, oldv, newv, 0);
 }
 
 static inline int ABTD_atomic_bool_cas_strong_ptr(ABTD_atomic_ptr *ptr,
                                                   void *oldv, void *newv)
 {
+    ABTI_VERIF_ATOMIC(5, 8, ptr, oldv, newv);
     return ABTDI_atomic_bool_cas_ptr(ptr, oldv, newv, 0);
 }
 
 static inline int ABTD_atomic_fetch_add_int(ABTD_atomic_int *ptr, int v)
 {
+    ABTI_VERIF_ATOMIC(6, 4, ptr, v, 0);
 #ifdef ABT_CONFIG_HAVE_ATOMIC_BUILTIN
     return __atomic_fetch_add(&ptr->val, v, __ATOMIC_ACQ_REL);
 #else
@@ -437,6 +482,7 @@ static inline int ABTD_atomic_fetch_add_int(ABTD_atomic_int *ptr, int v)
 
 static inline size_t ABTD_atomic_fetch_add_size(ABTD_atomic_size *ptr, size_t v)
 {
+    ABTI_VERIF_ATOMIC(6, 8, ptr, v, 0);
 #ifdef ABT_CONFIG_HAVE_ATOMIC_BUILTIN
     return __atomic_fetch_add(&ptr->val, v, __ATOMIC_ACQ_REL);
 #else
@@ -447,6 +493,7 @@ static inline size_t ABTD_atomic_fetch_add_size(ABTD_atomic_size *ptr, size_t v)
 static inline int32_t ABTD_atomic_fetch_add_int32(ABTD_atomic_int32 *ptr,
                                                   int32_t v)
 {
+    ABTI_VERIF_ATOMIC(6, 4, ptr, v, 0);
 #ifdef ABT_CONFIG_HAVE_ATOMIC_BUILTIN
     return __atomic_fetch_add(&ptr->val, v, __ATOMIC_ACQ_REL);
 #else
@@ -457,6 +504,7 @@ static inline int32_t ABTD_atomic_fetch_add_int32(ABTD_atomic_int32 *ptr,
 static inline uint32_t ABTD_atomic_fetch_add_uint32(ABTD_atomic_uint32 *ptr,
                                                     uint32_t v)
 {
+    ABTI_VERIF_ATOMIC(6, 4, ptr, v, 0);
 #ifdef ABT_CONFIG_HAVE_ATOMIC_BUILTIN
     return __atomic_fetch_add(&ptr->val, v, __ATOMIC_ACQ_REL);
 #else
@@ -467,6 +515,7 @@ static inline uint32_t ABTD_atomic_fetch_add_uint32(ABTD_atomic_uint32 *ptr,
 static inline int64_t ABTD_atomic_fetch_add_int64(ABTD_atomic_int64 *ptr,
                                                   int64_t v)
 {
+    ABTI_VERIF_ATOMIC(6, 8, ptr, v, 0);
 #ifdef ABT_CONFIG_HAVE_ATOMIC_BUILTIN
     return __atomic_fetch_add(&ptr->val, v, __ATOMIC_ACQ_REL);
 #else
@@ -477,6 +526,7 @@ static inline int64_t ABTD_atomic_fetch_add_int64(ABTD_atomic_int64 *ptr,
 static inline uint64_t ABTD_atomic_fetch_add_uint64(ABTD_atomic_uint64 *ptr,
                                                     uint64_t v)
 {
+    ABTI_VERIF_ATOMIC(6, 8, ptr, v, 0);
 #ifdef ABT_CONFIG_HAVE_ATOMIC_BUILTIN
     return __atomic_fetch_add(&ptr->val, v, __ATOMIC_ACQ_REL);
 #else
@@ -486,6 +536,7 @@ static inline uint64_t ABTD_atomic_fetch_add_uint64(ABTD_atomic_uint64 *ptr,
 
 static inline int ABTD_atomic_fetch_sub_int(ABTD_atomic_int *ptr, int v)
 {
+    ABTI_VERIF_ATOMIC(7, 4, ptr, v, 0);
 #ifdef ABT_CONFIG_HAVE_ATOMIC_BUILTIN
     return __atomic_fetch_sub(&ptr->val, v, __ATOMIC_ACQ_REL);
 #else
@@ -495,6 +546,7 @@ static inline int ABTD_atomic_fetch_sub_int(ABTD_atomic_int *ptr, int v)
 
 static inline size_t ABTD_atomic_fetch_sub_size(ABTD_atomic_size *ptr, size_t v)
 {
+    ABTI_VERIF_ATOMIC(7, 8, ptr, v, 0);
 #ifdef ABT_CONFIG_HAVE_ATOMIC_BUILTIN
     return __atomic_fetch_sub(&ptr->val, v, __ATOMIC_ACQ_REL);
 #else
@@ -505,6 +557,7 @@ static inline size_t ABTD_atomic_fetch_sub_size(ABTD_atomic_size *ptr, size_t v)
 static inline int32_t ABTD_atomic_fetch_sub_int32(ABTD_atomic_int32 *ptr,
                                                   int32_t v)
 {
+    ABTI_VERIF_ATOMIC(7, 4, ptr, v, 0);
 #ifdef ABT_CONFIG_HAVE_ATOMIC_BUILTIN
     return __atomic_fetch_sub(&ptr->val, v, __ATOMIC_ACQ_REL);
 #else
@@ -515,6 +568,7 @@ static inline int32_t ABTD_atomic_fetch_sub_int32(ABTD_atomic_int32 *ptr,
 static inline uint32_t ABTD_atomic_fetch_sub_uint32(ABTD_atomic_uint32 *ptr,
                                                     uint32_t v)
 {
+    ABTI_VERIF_ATOMIC(7, 4, ptr, v, 0);
 #ifdef ABT_CONFIG_HAVE_ATOMIC_BUILTIN
     return __atomic_fetch_sub(&ptr->val, v, __ATOMIC_ACQ_REL);
 #else
@@ -525,6 +579,7 @@ static inline uint32_t ABTD_atomic_fetch_sub_uint32(ABTD_atomic_uint32 *ptr,
 static inline int64_t ABTD_atomic_fetch_sub_int64(ABTD_atomic_int64 *ptr,
                                                   int64_t v)
 {
+    ABTI_VERIF_ATOMIC(7, 8, ptr, v, 0);
 #ifdef ABT_CONFIG_HAVE_ATOMIC_BUILTIN
     return __atomic_fetch_sub(&ptr->val, v, __ATOMIC_ACQ_REL);
 #else
@@ -535,6 +590,7 @@ static inline int64_t ABTD_atomic_fetch_sub_int64(ABTD_atomic_int64 *ptr,
 static inline uint64_t ABTD_atomic_fetch_sub_uint64(ABTD_atomic_uint64 *ptr,
                                                     uint64_t v)
 {
+    ABTI_VERIF_ATOMIC(7, 8, ptr, v, 0);
 #ifdef ABT_CONFIG_HAVE_ATOMIC_BUILTIN
     return __atomic_fetch_sub(&ptr->val, v, __ATOMIC_ACQ_REL);
 #else
@@ -544,6 +600,7 @@ static inline uint64_t ABTD_atomic_fetch_sub_uint64(ABTD_atomic_uint64 *ptr,
 
 static inline int ABTD_atomic_fetch_and_int(ABTD_atomic_int *ptr, int v)
 {
+    ABTI_VERIF_ATOMIC(9, 4, ptr, v, 0);
 #ifdef ABT_CONFIG_HAVE_ATOMIC_BUILTIN
     return __atomic_fetch_and(&ptr->val, v, __ATOMIC_ACQ_REL);
 #else
@@ -553,6 +610,7 @@ static inline int ABTD_atomic_fetch_and_int(ABTD_atomic_int *ptr, int v)
 
 static inline size_t ABTD_atomic_fetch_and_size(ABTD_atomic_size *ptr, size_t v)
 {
+    ABTI_VERIF_ATOMIC(9, 8, ptr, v, 0);
 #ifdef ABT_CONFIG_HAVE_ATOMIC_BUILTIN
     return __atomic_fetch_and(&ptr->val, v, __ATOMIC_ACQ_REL);
 #else
@@ -563,6 +621,7 @@ static inline size_t ABTD_atomic_fetch_and_size(ABTD_atomic_size *ptr, size_t v)
 static inline int32_t ABTD_atomic_fetch_and_int32(ABTD_atomic_int32 *ptr,
                                                   int32_t v)
 {
+    ABTI_VERIF_ATOMIC(9, 4, ptr, v, 0);
 #ifdef ABT_CONFIG_HAVE_ATOMIC_BUILTIN
     return __atomic_fetch_and(&ptr->val, v, __ATOMIC_ACQ_REL);
 #else
@@ -573,6 +632,7 @@ static inline int32_t ABTD_atomic_fetch_and_int32(ABTD_atomic_int32 *ptr,
 static inline uint32_t ABTD_atomic_fetch_and_uint32(ABTD_atomic_uint32 *ptr,
                                                     uint32_t v)
 {
+    ABTI_VERIF_ATOMIC(9, 4, ptr, v, 0);
 #ifdef ABT_CONFIG_HAVE_ATOMIC_BUILTIN
     return __atomic_fetch_and(&ptr->val, v, __ATOMIC_ACQ_REL);
 #else
@@ -583,6 +643,7 @@ static inline uint32_t ABTD_atomic_fetch_and_uint32(ABTD_atomic_uint32 *ptr,
 static inline int64_t ABTD_atomic_fetch_and_int64(ABTD_atomic_int64 *ptr,
                                                   int64_t v)
 {
+    ABTI_VERIF_ATOMIC(9, 8, ptr, v, 0);
 #ifdef ABT_CONFIG_HAVE_ATOMIC_BUILTIN
     return __atomic_fetch_and(&ptr->val, v, __ATOMIC_ACQ_REL);
 #else
@@ -593,6 +654,7 @@ static inline int64_t ABTD_atomic_fetch_and_int64(ABTD_atomic_int64 *ptr,
 static inline uint64_t ABTD_atomic_fetch_and_uint64(ABTD_atomic_uint64 *ptr,
                                                     uint64_t v)
 {
+    ABTI_VERIF_ATOMIC(9, 8, ptr, v, 0);
 #ifdef ABT_CONFIG_HAVE_ATOMIC_BUILTIN
     return __atomic_fetch_and(&ptr->val, v, __ATOMIC_ACQ_REL);
 #else
@@ -602,6 +664,7 @@ static inline uint64_t ABTD_atomic_fetch_and_uint64(ABTD_atomic_uint64 *ptr,
 
 static inline int ABTD_atomic_fetch_or_int(ABTD_atomic_int *ptr, int v)
 {
+    ABTI_VERIF_ATOMIC(8, 4, ptr, v, 0);
 #ifdef ABT_CONFIG_HAVE_ATOMIC_BUILTIN
     return __atomic_fetch_or(&ptr->val, v, __ATOMIC_ACQ_REL);
 #else
@@ -611,6 +674,7 @@ static inline int ABTD_atomic_fetch_or_int(ABTD_atomic_int *ptr, int v)
 
 static inline size_t ABTD_atomic_fetch_or_size(ABTD_atomic_size *ptr, size_t v)
 {
+    ABTI_VERIF_ATOMIC(8, 8, ptr, v, 0);
 #ifdef ABT_CONFIG_HAVE_ATOMIC_BUILTIN
     return __atomic_fetch_or(&ptr->val, v, __ATOMIC_ACQ_REL);
 #else
@@ -621,6 +685,7 @@ static inline size_t ABTD_atomic_fetch_or_size(ABTD_atomic_size *ptr, size_t v)
 static inline int32_t ABTD_atomic_fetch_or_int32(ABTD_atomic_int32 *ptr,
                                                  int32_t v)
 {
+    ABTI_VERIF_ATOMIC(8, 4, ptr, v, 0);
 #ifdef ABT_CONFIG_HAVE_ATOMIC_BUILTIN
     return __atomic_fetch_or(&ptr->val, v, __ATOMIC_ACQ_REL);
 #else
@@ -631,6 +696,7 @@ static inline int32_t ABTD_atomic_fetch_or_int32(ABTD_atomic_int32 *ptr,
 static inline uint32_t ABTD_atomic_fetch_or_uint32(ABTD_atomic_uint32 *ptr,
                                                    uint32_t v)
 {
+    ABTI_VERIF_ATOMIC(8, 4, ptr, v, 0);
 #ifdef ABT_CONFIG_HAVE_ATOMIC_BUILTIN
     return __atomic_fetch_or(&ptr->val, v, __ATOMIC_ACQ_REL);
 #else
@@ -641,6 +707,7 @@ static inline uint32_t ABTD_atomic_fetch_or_uint32(ABTD_atomic_uint32 *ptr,
 static inline int64_t ABTD_atomic_fetch_or_int64(ABTD_atomic_int64 *ptr,
                                                  int64_t v)
 {
+    ABTI_VERIF_ATOMIC(8, 8, ptr, v, 0);
 #ifdef ABT_CONFIG_HAVE_ATOMIC_BUILTIN
     return __atomic_fetch_or(&ptr->val, v, __ATOMIC_ACQ_REL);
 #else
@@ -651,6 +718,7 @@ static inline int64_t ABTD_atomic_fetch_or_int64(ABTD_atomic_int64 *ptr,
 static inline uint64_t ABTD_atomic_fetch_or_uint64(ABTD_atomic_uint64 *ptr,
                                                    uint64_t v)
 {
+    ABTI_VERIF_ATOMIC(8, 8, ptr, v, 0);
 #ifdef ABT_CONFIG_HAVE_ATOMIC_BUILTIN
     return __atomic_fetch_or(&ptr->val, v, __ATOMIC_ACQ_REL);
 #else
@@ -660,6 +728,7 @@ static inline uint64_t ABTD_atomic_fetch_or_uint64(ABTD_atomic_uint64 *ptr,
 
 static inline int ABTD_atomic_fetch_xor_int(ABTD_atomic_int *ptr, int v)
 {
+    ABTI_VERIF_ATOMIC(10, 4, ptr, v, 0);
 #ifdef ABT_CONFIG_HAVE_ATOMIC_BUILTIN
     return __atomic_fetch_xor(&ptr->val, v, __ATOMIC_ACQ_REL);
 #else
@@ -669,6 +738,7 @@ static inline int ABTD_atomic_fetch_xor_int(ABTD_atomic_int *ptr, int v)
 
 static inline size_t ABTD_atomic_fetch_xor_size(ABTD_atomic_size *ptr, size_t v)
 {
+    ABTI_VERIF_ATOMIC(10, 8, ptr, v, 0);
 #ifdef ABT_CONFIG_HAVE_ATOMIC_BUILTIN
     return __atomic_fetch_xor(&ptr->val, v, __ATOMIC_ACQ_REL);
 #else
@@ -679,6 +749,7 @@ static inline size_t ABTD_atomic_fetch_xor_size(ABTD_atomic_size *ptr, size_t v)
 static inline int32_t ABTD_atomic_fetch_xor_int32(ABTD_atomic_int32 *ptr,
                                                   int32_t v)
 {
+    ABTI_VERIF_ATOMIC(10, 4, ptr, v, 0);
 #ifdef ABT_CONFIG_HAVE_ATOMIC_BUILTIN
     return __atomic_fetch_xor(&ptr->val, v, __ATOMIC_ACQ_REL);
 #else
@@ -689,6 +760,7 @@ static inline int32_t ABTD_atomic_fetch_xor_int32(ABTD_atomic_int32 *ptr,
 static inline uint32_t ABTD_atomic_fetch_xor_uint32(ABTD_atomic_uint32 *ptr,
                                                     uint32_t v)
 {
+    ABTI_VERIF_ATOMIC(10, 4, ptr, v, 0);
 #ifdef ABT_CONFIG_HAVE_ATOMIC_BUILTIN
     return __atomic_fetch_xor(&ptr->val, v, __ATOMIC_ACQ_REL);
 #else
@@ -699,6 +771,7 @@ static inline uint32_t ABTD_atomic_fetch_xor_uint32(ABTD_atomic_uint32 *ptr,
 static inline int64_t ABTD_atomic_fetch_xor_int64(ABTD_atomic_int64 *ptr,
                                                   int64_t v)
 {
+    ABTI_VERIF_ATOMIC(10, 8, ptr, v, 0);
 #ifdef ABT_CONFIG_HAVE_ATOMIC_BUILTIN
     return __atomic_fetch_xor(&ptr->val, v, __ATOMIC_ACQ_REL);
 #else
@@ -709,6 +782,7 @@ static inline int64_t ABTD_atomic_fetch_xor_int64(ABTD_atomic_int64 *ptr,
 static inline uint64_t ABTD_atomic_fetch_xor_uint64(ABTD_atomic_uint64 *ptr,
                                                     uint64_t v)
 {
+    ABTI_VERIF_ATOMIC(10, 8, ptr, v, 0);
 #ifdef ABT_CONFIG_HAVE_ATOMIC_BUILTIN
     return __atomic_fetch_xor(&ptr->val, v, __ATOMIC_ACQ_REL);
 #else
@@ -718,6 +792,7 @@ static inline uint64_t ABTD_atomic_fetch_xor_uint64(ABTD_atomic_uint64 *ptr,
 
 static inline uint16_t ABTD_atomic_test_and_set_bool(ABTD_atomic_bool *ptr)
 {
+    ABTI_VERIF_ATOMIC(4, 1, ptr, 0, 0);
     /* return 0 if this test_and_set succeeds to set a value. */
 #ifdef ABT_CONFIG_HAVE_ATOMIC_BUILTIN
     return __atomic_test_and_set(&ptr->val, __ATOMIC_ACQUIRE);
@@ -728,6 +803,7 @@ static inline uint16_t ABTD_atomic_test_and_set_bool(ABTD_atomic_bool *ptr)
 
 static inline void ABTD_atomic_relaxed_clear_bool(ABTD_atomic_bool *ptr)
 {
+    ABTI_VERIF_ATOMIC(3, 1, ptr, 0, 0);
 #ifdef ABT_CONFIG_HAVE_ATOMIC_BUILTIN
     __atomic_clear(&ptr->val, __ATOMIC_RELAXED);
 #else
@@ -737,6 +813,7 @@ static inline void ABTD_atomic_relaxed_clear_bool(ABTD_atomic_bool *ptr)
 
 static inline void ABTD_atomic_release_clear_bool(ABTD_atomic_bool *ptr)
 {
+    ABTI_VERIF_ATOMIC(3, 1, ptr, 0, 0);
 #ifdef ABT_CONFIG_HAVE_ATOMIC_BUILTIN
     __atomic_clear(&ptr->val, __ATOMIC_RELEASE);
 #else
@@ -747,6 +824,7 @@ static inline void ABTD_atomic_release_clear_bool(ABTD_atomic_bool *ptr)
 static inline ABT_bool
 ABTD_atomic_relaxed_load_bool(const ABTD_atomic_bool *ptr)
 {
+    ABTI_VERIF_ATOMIC(1, 1, ptr, 0, 0);
 #ifdef ABT_CONFIG_HAVE_ATOMIC_BUILTIN
 #ifndef __SUNPRO_C
     return __atomic_load_n(&ptr->val, __ATOMIC_RELAXED) ? ABT_TRUE : ABT_FALSE;
@@ -762,6 +840,7 @@ ABTD_atomic_relaxed_load_bool(const ABTD_atomic_bool *ptr)
 
 static inline int ABTD_atomic_relaxed_load_int(const ABTD_atomic_int *ptr)
 {
+    ABTI_VERIF_ATOMIC(1, 4, ptr, 0, 0);
 #ifdef ABT_CONFIG_HAVE_ATOMIC_BUILTIN
 #ifndef __SUNPRO_C
     return __atomic_load_n(&ptr->val, __ATOMIC_RELAXED);
@@ -775,6 +854,7 @@ static inline int ABTD_atomic_relaxed_load_int(const ABTD_atomic_int *ptr)
 
 static inline size_t ABTD_atomic_relaxed_load_size(const ABTD_atomic_size *ptr)
 {
+    ABTI_VERIF_ATOMIC(1, 8, ptr, 0, 0);
 #ifdef ABT_CONFIG_HAVE_ATOMIC_BUILTIN
 #ifndef __SUNPRO_C
     return __atomic_load_n(&ptr->val, __ATOMIC_RELAXED);
@@ -789,6 +869,7 @@ static inline size_t ABTD_atomic_relaxed_load_size(const ABTD_atomic_size *ptr)
 static inline int32_t
 ABTD_atomic_relaxed_load_int32(const ABTD_atomic_int32 *ptr)
 {
+    ABTI_VERIF_ATOMIC(1, 4, ptr, 0, 0);
 #ifdef ABT_CONFIG_HAVE_ATOMIC_BUILTIN
 #ifndef __SUNPRO_C
     return __atomic_load_n(&ptr->val, __ATOMIC_RELAXED);
@@ -803,6 +884,7 @@ ABTD_atomic_relaxed_load_int32(const ABTD_atomic_int32 *ptr)
 static inline uint32_t
 ABTD_atomic_relaxed_load_uint32(const ABTD_atomic_uint32 *ptr)
 {
+    ABTI_VERIF_ATOMIC(1, 4, ptr, 0, 0);
 #ifdef ABT_CONFIG_HAVE_ATOMIC_BUILTIN
 #ifndef __SUNPRO_C
     return __atomic_load_n(&ptr->val, __ATOMIC_RELAXED);
@@ -817,6 +899,7 @@ ABTD_atomic_relaxed_load_uint32(const ABTD_atomic_uint32 *ptr)
 static inline int64_t
 ABTD_atomic_relaxed_load_int64(const ABTD_atomic_int64 *ptr)
 {
+    ABTI_VERIF_ATOMIC(1, 8, ptr, 0, 0);
 #ifdef ABT_CONFIG_HAVE_ATOMIC_BUILTIN
 #ifndef __SUNPRO_C
     return __atomic_load_n(&ptr->val, __ATOMIC_RELAXED);
@@ -831,6 +914,7 @@ ABTD_atomic_relaxed_load_int64(const ABTD_atomic_int64 *ptr)
 static inline uint64_t
 ABTD_atomic_relaxed_load_uint64(const ABTD_atomic_uint64 *ptr)
 {
+    ABTI_VERIF_ATOMIC(1, 8, ptr, 0, 0);
     /* return 0 if this test_and_set succeeds to set a value. */
 #ifdef ABT_CONFIG_HAVE_ATOMIC_BUILTIN
 #ifndef __SUNPRO_C
@@ -845,6 +929,7 @@ ABTD_atomic_relaxed_load_uint64(const ABTD_atomic_uint64 *ptr)
 
 static inline void *ABTD_atomic_relaxed_load_ptr(const ABTD_atomic_ptr *ptr)
 {
+    ABTI_VERIF_ATOMIC(1, 8, ptr, 0, 0);
     /* return 0 if this test_and_set succeeds to set a value. */
 #ifdef ABT_CONFIG_HAVE_ATOMIC_BUILTIN
 #ifndef __SUNPRO_C
@@ -860,6 +945,7 @@ static inline void *ABTD_atomic_relaxed_load_ptr(const ABTD_atomic_ptr *ptr)
 static inline ABT_bool
 ABTD_atomic_acquire_load_bool(const ABTD_atomic_bool *ptr)
 {
+    ABTI_VERIF_ATOMIC(1, 1, ptr, 0, 0);
 #ifdef ABT_CONFIG_HAVE_ATOMIC_BUILTIN
 #ifndef __SUNPRO_C
     return __atomic_load_n(&ptr->val, __ATOMIC_ACQUIRE) ? ABT_TRUE : ABT_FALSE;
@@ -877,6 +963,7 @@ ABTD_atomic_acquire_load_bool(const ABTD_atomic_bool *ptr)
 
 static inline int ABTD_atomic_acquire_load_int(const ABTD_atomic_int *ptr)
 {
+    ABTI_VERIF_ATOMIC(1, 4, ptr, 0, 0);
 #ifdef ABT_CONFIG_HAVE_ATOMIC_BUILTIN
 #ifndef __SUNPRO_C
     return __atomic_load_n(&ptr->val, __ATOMIC_ACQUIRE);
@@ -893,6 +980,7 @@ static inline int ABTD_atomic_acquire_load_int(const ABTD_atomic_int *ptr)
 
 static inline size_t ABTD_atomic_acquire_load_size(const ABTD_atomic_size *ptr)
 {
+    ABTI_VERIF_ATOMIC(1, 8, ptr, 0, 0);
 #ifdef ABT_CONFIG_HAVE_ATOMIC_BUILTIN
 #ifndef __SUNPRO_C
     return __atomic_load_n(&ptr->val, __ATOMIC_ACQUIRE);
@@ -910,6 +998,7 @@ static inline size_t ABTD_atomic_acquire_load_size(const ABTD_atomic_size *ptr)
 static inline int32_t
 ABTD_atomic_acquire_load_int32(const ABTD_atomic_int32 *ptr)
 {
+    ABTI_VERIF_ATOMIC(1, 4, ptr, 0, 0);
 #ifdef ABT_CONFIG_HAVE_ATOMIC_BUILTIN
 #ifndef __SUNPRO_C
     return __atomic_load_n(&ptr->val, __ATOMIC_ACQUIRE);
@@ -927,6 +1016,7 @@ ABTD_atomic_acquire_load_int32(const ABTD_atomic_int32 *ptr)
 static inline uint32_t
 ABTD_atomic_acquire_load_uint32(const ABTD_atomic_uint32 *ptr)
 {
+    ABTI_VERIF_ATOMIC(1, 4, ptr, 0, 0);
 #ifdef ABT_CONFIG_HAVE_ATOMIC_BUILTIN
 #ifndef __SUNPRO_C
     return __atomic_load_n(&ptr->val, __ATOMIC_ACQUIRE);
@@ -944,6 +1034,7 @@ ABTD_atomic_acquire_load_uint32(const ABTD_atomic_uint32 *ptr)
 static inline int64_t
 ABTD_atomic_acquire_load_int64(const ABTD_atomic_int64 *ptr)
 {
+    ABTI_VERIF_ATOMIC(1, 8, ptr, 0, 0);
 #ifdef ABT_CONFIG_HAVE_ATOMIC_BUILTIN
 #ifndef __SUNPRO_C
     return __atomic_load_n(&ptr->val, __ATOMIC_ACQUIRE);
@@ -961,6 +1052,7 @@ ABTD_atomic_acquire_load_int64(const ABTD_atomic_int64 *ptr)
 static inline uint64_t
 ABTD_atomic_acquire_load_uint64(const ABTD_atomic_uint64 *ptr)
 {
+    ABTI_VERIF_ATOMIC(1, 8, ptr, 0, 0);
     /* return 0 if this test_and_set succeeds to set a value. */
 #ifdef ABT_CONFIG_HAVE_ATOMIC_BUILTIN
 #ifndef __SUNPRO_C
@@ -978,6 +1070,7 @@ ABTD_atomic_acquire_load_uint64(const ABTD_atomic_uint64 *ptr)
 
 static inline void *ABTD_atomic_acquire_load_ptr(const ABTD_atomic_ptr *ptr)
 {
+    ABTI_VERIF_ATOMIC(1, 8, ptr, 0, 0);
     /* return 0 if this test_and_set succeeds to set a value. */
 #ifdef ABT_CONFIG_HAVE_ATOMIC_BUILTIN
 #ifndef __SUNPRO_C
@@ -995,6 +1088,7 @@ static inline void *ABTD_atomic_acquire_load_ptr(const ABTD_atomic_ptr *ptr)
 
 static inline void ABTD_atomic_relaxed_store_int(ABTD_atomic_int *ptr, int val)
 {
+    ABTI_VERIF_ATOMIC(2, 4, ptr, val, 0);
 #ifdef ABT_CONFIG_HAVE_ATOMIC_BUILTIN
     __atomic_store_n(&ptr->val, val, __ATOMIC_RELAXED);
 #else
@@ -1005,6 +1099,7 @@ static inline void ABTD_atomic_relaxed_store_int(ABTD_atomic_int *ptr, int val)
 static inline void ABTD_atomic_relaxed_store_size(ABTD_atomic_size *ptr,
                                                   size_t val)
 {
+    ABTI_VERIF_ATOMIC(2, 8, ptr, val, 0);
 #ifdef ABT_CONFIG_HAVE_ATOMIC_BUILTIN
     __atomic_store_n(&ptr->val, val, __ATOMIC_RELAXED);
 #else
@@ -1015,6 +1110,7 @@ static inline void ABTD_atomic_relaxed_store_size(ABTD_atomic_size *ptr,
 static inline void ABTD_atomic_relaxed_store_int32(ABTD_atomic_int32 *ptr,
                                                    int32_t val)
 {
+    ABTI_VERIF_ATOMIC(2, 4, ptr, val, 0);
 #ifdef ABT_CONFIG_HAVE_ATOMIC_BUILTIN
     __atomic_store_n(&ptr->val, val, __ATOMIC_RELAXED);
 #else
@@ -1025,6 +1121,7 @@ static inline void ABTD_atomic_relaxed_store_int32(ABTD_atomic_int32 *ptr,
 static inline void ABTD_atomic_relaxed_store_uint32(ABTD_atomic_uint32 *ptr,
                                                     uint32_t val)
 {
+    ABTI_VERIF_ATOMIC(2, 4, ptr, val, 0);
 #ifdef ABT_CONFIG_HAVE_ATOMIC_BUILTIN
     __atomic_store_n(&ptr->val, val, __ATOMIC_RELAXED);
 #else
@@ -1035,6 +1132,7 @@ static inline void ABTD_atomic_relaxed_store_uint32(ABTD_atomic_uint32 *ptr,
 static inline void ABTD_atomic_relaxed_store_int64(ABTD_atomic_int64 *ptr,
                                                    int64_t val)
 {
+    ABTI_VERIF_ATOMIC(2, 8, ptr, val, 0);
 #ifdef ABT_CONFIG_HAVE_ATOMIC_BUILTIN
     __atomic_store_n(&ptr->val, val, __ATOMIC_RELAXED);
 #else
@@ -1045,6 +1143,7 @@ static inline void ABTD_atomic_relaxed_store_int64(ABTD_atomic_int64 *ptr,
 static inline void ABTD_atomic_relaxed_store_uint64(ABTD_atomic_uint64 *ptr,
                                                     uint64_t val)
 {
+    ABTI_VERIF_ATOMIC(2, 8, ptr, val, 0);
 #ifdef ABT_CONFIG_HAVE_ATOMIC_BUILTIN
     __atomic_store_n(&ptr->val, val, __ATOMIC_RELAXED);
 #else
@@ -1055,6 +1154,7 @@ static inline void ABTD_atomic_relaxed_store_uint64(ABTD_atomic_uint64 *ptr,
 static inline void ABTD_atomic_relaxed_store_ptr(ABTD_atomic_ptr *ptr,
                                                  void *val)
 {
+    ABTI_VERIF_ATOMIC(2, 8, ptr, val, 0);
 #ifdef ABT_CONFIG_HAVE_ATOMIC_BUILTIN
     __atomic_store_n(&ptr->val, val, __ATOMIC_RELAXED);
 #else
@@ -1064,6 +1164,7 @@ static inline void ABTD_atomic_relaxed_store_ptr(ABTD_atomic_ptr *ptr,
 
 static inline void ABTD_atomic_release_store_int(ABTD_atomic_int *ptr, int val)
 {
+    ABTI_VERIF_ATOMIC(2, 4, ptr, val, 0);
 #ifdef ABT_CONFIG_HAVE_ATOMIC_BUILTIN
     __atomic_store_n(&ptr->val, val, __ATOMIC_RELEASE);
 #else
@@ -1076,6 +1177,7 @@ static inline void ABTD_atomic_release_store_int(ABTD_atomic_int *ptr, int val)
 static inline void ABTD_atomic_release_store_size(ABTD_atomic_size *ptr,
                                                   size_t val)
 {
+    ABTI_VERIF_ATOMIC(2, 8, ptr, val, 0);
 #ifdef ABT_CONFIG_HAVE_ATOMIC_BUILTIN
     __atomic_store_n(&ptr->val, val, __ATOMIC_RELEASE);
 #else
@@ -1088,6 +1190,7 @@ static inline void ABTD_atomic_release_store_size(ABTD_atomic_size *ptr,
 static inline void ABTD_atomic_release_store_int32(ABTD_atomic_int32 *ptr,
                                                    int32_t val)
 {
+    ABTI_VERIF_ATOMIC(2, 4, ptr, val, 0);
 #ifdef ABT_CONFIG_HAVE_ATOMIC_BUILTIN
     __atomic_store_n(&ptr->val, val, __ATOMIC_RELEASE);
 #else
@@ -1100,6 +1203,7 @@ static inline void ABTD_atomic_release_store_int32(ABTD_atomic_int32 *ptr,
 static inline void ABTD_atomic_release_store_uint32(ABTD_atomic_uint32 *ptr,
                                                     uint32_t val)
 {
+    ABTI_VERIF_ATOMIC(2, 4, ptr, val, 0);
 #ifdef ABT_CONFIG_HAVE_ATOMIC_BUILTIN
     __atomic_store_n(&ptr->val, val, __ATOMIC_RELEASE);
 #else
@@ -1112,6 +1216,7 @@ static inline void ABTD_atomic_release_store_uint32(ABTD_atomic_uint32 *ptr,
 static inline void ABTD_atomic_release_store_int64(ABTD_atomic_int64 *ptr,
                                                    int64_t val)
 {
+    ABTI_VERIF_ATOMIC(2, 8, ptr, val, 0);
 #ifdef ABT_CONFIG_HAVE_ATOMIC_BUILTIN
     __atomic_store_n(&ptr->val, val, __ATOMIC_RELEASE);
 #else
@@ -1124,6 +1229,7 @@ static inline void ABTD_atomic_release_store_int64(ABTD_atomic_int64 *ptr,
 static inline void ABTD_atomic_release_store_uint64(ABTD_atomic_uint64 *ptr,
                                                     uint64_t val)
 {
+    ABTI_VERIF_ATOMIC(2, 8, ptr, val, 0);
 #ifdef ABT_CONFIG_HAVE_ATOMIC_BUILTIN
     __atomic_store_n(&ptr->val, val, __ATOMIC_RELEASE);
 #else
@@ -1136,6 +1242,7 @@ static inline void ABTD_atomic_release_store_uint64(ABTD_atomic_uint64 *ptr,
 static inline void ABTD_atomic_release_store_ptr(ABTD_atomic_ptr *ptr,
                                                  void *val)
 {
+    ABTI_VERIF_ATOMIC(2, 8, ptr, val, 0);
 #ifdef ABT_CONFIG_HAVE_ATOMIC_BUILTIN
     __atomic_store_n(&ptr->val, val, __ATOMIC_RELEASE);
 #else
@@ -1147,6 +1254,7 @@ static inline void ABTD_atomic_release_store_ptr(ABTD_atomic_ptr *ptr,
 
 static inline int ABTD_atomic_exchange_int(ABTD_atomic_int *ptr, int v)
 {
+    ABTI_VERIF_ATOMIC(11, 4, ptr, v, 0);
 #ifdef ABT_CONFIG_HAVE_ATOMIC_BUILTIN
     return __atomic_exchange_n(&ptr->val, v, __ATOMIC_ACQ_REL);
 #else
@@ -1160,6 +1268,7 @@ static inline int ABTD_atomic_exchange_int(ABTD_atomic_int *ptr, int v)
 
 static inline size_t ABTD_atomic_exchange_size(ABTD_atomic_size *ptr, size_t v)
 {
+    ABTI_VERIF_ATOMIC(11, 8, ptr, v, 0);
 #ifdef ABT_CONFIG_HAVE_ATOMIC_BUILTIN
     return __atomic_exchange_n(&ptr->val, v, __ATOMIC_ACQ_REL);
 #else
@@ -1174,6 +1283,7 @@ static inline size_t ABTD_atomic_exchange_size(ABTD_atomic_size *ptr, size_t v)
 static inline int32_t ABTD_atomic_exchange_int32(ABTD_atomic_int32 *ptr,
                                                  int32_t v)
 {
+    ABTI_VERIF_ATOMIC(11, 4, ptr, v, 0);
 #ifdef ABT_CONFIG_HAVE_ATOMIC_BUILTIN
     return __atomic_exchange_n(&ptr->val, v, __ATOMIC_ACQ_REL);
 #else
@@ -1188,6 +1298,7 @@ static inline int32_t ABTD_atomic_exchange_int32(ABTD_atomic_int32 *ptr,
 static inline uint32_t ABTD_atomic_exchange_uint32(ABTD_atomic_uint32 *ptr,
                                                    uint32_t v)
 {
+    ABTI_VERIF_ATOMIC(11, 4, ptr, v, 0);
 #ifdef ABT_CONFIG_HAVE_ATOMIC_BUILTIN
     return __atomic_exchange_n(&ptr->val, v, __ATOMIC_ACQ_REL);
 #else
@@ -1202,6 +1313,7 @@ static inline uint32_t ABTD_atomic_exchange_uint32(ABTD_atomic_uint32 *ptr,
 static inline int64_t ABTD_atomic_exchange_int64(ABTD_atomic_int64 *ptr,
                                                  int64_t v)
 {
+    ABTI_VERIF_ATOMIC(11, 8, ptr, v, 0);
 #ifdef ABT_CONFIG_HAVE_ATOMIC_BUILTIN
     return __atomic_exchange_n(&ptr->val, v, __ATOMIC_ACQ_REL);
 #else
@@ -1216,6 +1328,7 @@ static inline int64_t ABTD_atomic_exchange_int64(ABTD_atomic_int64 *ptr,
 static inline uint64_t ABTD_atomic_exchange_uint64(ABTD_atomic_uint64 *ptr,
                                                    uint64_t v)
 {
+    ABTI_VERIF_ATOMIC(11, 8, ptr, v, 0);
 #ifdef ABT_CONFIG_HAVE_ATOMIC_BUILTIN
     return __atomic_exchange_n(&ptr->val, v, __ATOMIC_ACQ_REL);
 #else
@@ -1229,6 +1342,7 @@ static inline uint64_t ABTD_atomic_exchange_uint64(ABTD_atomic_uint64 *ptr,
 
 static inline void *ABTD_atomic_exchange_ptr(ABTD_atomic_ptr *ptr, void *v)
 {
+    ABTI_VERIF_ATOMIC(11, 8, ptr, v, 0);
 #ifdef ABT_CONFIG_HAVE_ATOMIC_BUILTIN
     return __atomic_exchange_n(&ptr->val, v, __ATOMIC_ACQ_REL);
 #else
@@ -1242,6 +1356,7 @@ static inline void *ABTD_atomic_exchange_ptr(ABTD_atomic_ptr *ptr, void *v)
 
 static inline void ABTD_atomic_mem_barrier(void)
 {
+    ABTI_VERIF_ATOMIC(13, 0, 0, 0, 0);
 #ifdef ABT_CONFIG_HAVE_ATOMIC_BUILTIN
     __atomic_thread_fence(__ATOMIC_ACQ_REL);
 #else
@@ -1256,6 +1371,7 @@ static inline void ABTD_compiler_barrier(void)
 
 static inline void ABTD_atomic_pause(void)
 {
+    ABTI_VERIF_ATOMIC(12, 0, 0, 0, 0);
 #ifdef __x86_64__
     __asm__ __volatile__("pause" ::: "memory");
 #endif
@@ -1293,6 +1409,7 @@ ABTD_atomic_bool_cas_weak_tagged_ptr(ABTD_atomic_tagged_ptr *tagged_ptr,
                                      void *old_ptr, size_t old_tag,
                                      void *new_ptr, size_t new_tag)
 {
+    ABTI_VERIF_ATOMIC(5, 16, tagged_ptr, old_ptr, new_ptr);
 #if SIZEOF_VOID_P == 4
 
     ABTI_STATIC_ASSERT(sizeof(ABTD_atomic_tagged_ptr) == 8);
@@ -1345,6 +1462,7 @@ ABTD_atomic_bool_cas_weak_tagged_ptr(ABTD_atomic_tagged_ptr *tagged_ptr,
 static inline void ABTD_atomic_relaxed_load_non_atomic_tagged_ptr(
     const ABTD_atomic_tagged_ptr *tagged_ptr, void **p_ptr, size_t *p_tag)
 {
+    ABTI_VERIF_ATOMIC(1, 16, tagged_ptr, 0, 0);
 #ifdef ABT_CONFIG_HAVE_ATOMIC_BUILTIN
 #ifndef __SUNPRO_C
     *p_ptr = __atomic_load_n(&tagged_ptr->ptr, __ATOMIC_RELAXED);
@@ -1362,6 +1480,7 @@ static inline void ABTD_atomic_relaxed_load_non_atomic_tagged_ptr(
 static inline void ABTD_atomic_relaxed_store_non_atomic_tagged_ptr(
     ABTD_atomic_tagged_ptr *tagged_ptr, void *ptr, size_t tag)
 {
+    ABTI_VERIF_ATOMIC(2, 16, tagged_ptr, ptr, tag);
 #ifdef ABT_CONFIG_HAVE_ATOMIC_BUILTIN
     __atomic_store_n(&tagged_ptr->ptr, ptr, __ATOMIC_RELAXED);
     __atomic_store_n(&tagged_ptr->tag, tag, __ATOMIC_RELAXED);
@@ -1374,6 +1493,7 @@ static inline void ABTD_atomic_relaxed_store_non_atomic_tagged_ptr(
 static inline void ABTD_atomic_acquire_load_non_atomic_tagged_ptr(
     const ABTD_atomic_tagged_ptr *tagged_ptr, void **p_ptr, size_t *p_tag)
 {
+    ABTI_VERIF_ATOMIC(1, 16, tagged_ptr, 0, 0);
 #ifdef ABT_CONFIG_HAVE_ATOMIC_BUILTIN
 #ifndef __SUNPRO_C
     *p_ptr = __atomic_load_n(&tagged_ptr->ptr, __ATOMIC_ACQUIRE);
@@ -1393,6 +1513,7 @@ static inline void ABTD_atomic_acquire_load_non_atomic_tagged_ptr(
 static inline void ABTD_atomic_release_store_non_atomic_tagged_ptr(
     ABTD_atomic_tagged_ptr *tagged_ptr, void *ptr, size_t tag)
 {
+    ABTI_VERIF_ATOMIC(2, 16, tagged_ptr, ptr, tag);
 #ifdef ABT_CONFIG_HAVE_ATOMIC_BUILTIN
     __atomic_store_n(&tagged_ptr->ptr, ptr, __ATOMIC_RELEASE);
     __atomic_store_n(&tagged_ptr->tag, tag, __ATOMIC_RELEASE);
